@@ -70,7 +70,7 @@ fn main() {
             p.max_shrink_iters = 8;
             parts.push(p);
             (
-                "part real-time (one scenario at a time, ~9 s each): TCP server on 127.0.0.1 / 127.0.0.2 / [::1] / 0.0.0.0 or UNIX server, burst of 6-40 simultaneously open connections all answered, 6.2 s idle: thread count (/proc/self/task) back to <= baseline + accept + 4; next request still served; server dropped (optionally while the application holds a request): after 1.5 s of silence the first connection attempt is refused, UNIX path removed, the held request's answer reaches the client",
+                "part real-time (one scenario at a time, ~9 s each): TCP server on 127.0.0.1 / 127.0.0.2 / [::1] / 0.0.0.0 or UNIX server, burst of 6-40 simultaneously open connections all answered, 6.2 s idle: thread count (/proc/self/task) back to <= baseline + accept + 4; next request still served; server dropped (optionally while the application holds a request): after 3 s of silence the first connection attempt is refused, UNIX path removed, the held request's answer reaches the client",
                 vec!["thread counts are process-wide: this part runs single-threaded"],
             )
         }
